@@ -326,6 +326,15 @@ void reset_load_object_limits() {
   num_objects_this_thread = 0;
 }
 
+/* saved and restored by save_context()/restore_context() */
+int get_load_object_limits (void) {
+  return num_objects_this_thread;
+}
+
+void set_load_object_limits (int n) {
+  num_objects_this_thread = n;
+}
+
 /**
  * @brief Load an object definition from file. If the object wants to inherit
  * from an object that is not loaded, discard all, load the inherited object,
@@ -927,6 +936,15 @@ static object_t *restrict_destruct;
 
 void reset_destruct_object_limits() {
   restrict_destruct = NULL;
+}
+
+/* saved and restored by save_context()/restore_context() */
+object_t *get_destruct_object_limits (void) {
+  return restrict_destruct;
+}
+
+void set_destruct_object_limits (object_t * ob) {
+  restrict_destruct = ob;
 }
 
 /**
